@@ -281,6 +281,39 @@ fn c13(ctx: &mut Ctx, idx: u64, case: &Case, p: &Pma<u32>) {
             let _ = got;
         }
     }
+    // "every search call returns after finitely many steps": also the calls whose documented
+    // outcome is a panic (search method that does not fit the automaton's match kind). A panic or
+    // a normal return is finite; only exceeding the logical step budget is a refuting event.
+    let wrong: &[Method] = if spec.kind == MatchKind::Standard { &[Method::Leftmost] } else { &Method::STANDARD };
+    for hay in case.haystacks.iter().filter(|h| !h.is_empty()).take(2) {
+        for &m in wrong {
+            let n = hay.len() as u64;
+            let budget = (n + 1) * (ns + 1) * 2 + 64;
+            let r = std::panic::catch_unwind(std::panic::AssertUnwindSafe(|| p.search(m, hay, 4 * hay.len() + 8, Some(budget))));
+            daachorse::verif::set_step_budget(None);
+            ctx.rep.count("mismatched_kind_calls", 1);
+            match r {
+                Ok(_) => ctx.rep.count("mismatched_kind_calls_returned", 1),
+                Err(e) => {
+                    let msg = e.downcast_ref::<String>().cloned().or_else(|| e.downcast_ref::<&str>().map(|s| (*s).to_string())).unwrap_or_default();
+                    if msg.contains(daachorse::verif::BUDGET_PANIC_MESSAGE) {
+                        ctx.rep.violation(
+                            "step-budget",
+                            format!(
+                                "{} called on a {} automaton neither panics nor returns: more than {budget} transitions on a haystack of {n} bytes",
+                                m.name(),
+                                kind_name(spec.kind)
+                            ),
+                            idx,
+                            J::obj().set("spec", Case::spec_j(&spec)).set("haystack", bytes_j(hay)).set("case", case.to_json(60, 300)),
+                        );
+                        return;
+                    }
+                    ctx.rep.count("mismatched_kind_calls_panicked_as_documented", 1);
+                }
+            }
+        }
+    }
     ctx.rep.max("max_step_ratio", max_ratio);
     let nontrivial = max_ratio >= 1.5 || sr.max_fail_chain >= 3;
     if max_ratio >= 1.5 {
